@@ -852,6 +852,54 @@ pub fn run_c02(ctx: &Ctx) -> i32 {
             corpus::Outcome::Err(e) => ctx.violation("convert:generated-project-rejected", &e, json!({"spec": format!("{:?}", s)})),
             corpus::Outcome::Panic(p) => ctx.violation(&format!("panic:{}", panic_key(&p)), &p, json!({"spec": format!("{:?}", s)})),
         }
+        // the same project with the wall layers it defines copied twice under other names, each copy in use by one wall:
+        // three definitions with one content (a library entry duplicated by the user) - closed, or rejected
+        {
+            let text = crate::projgen::ctehexml_text(s);
+            let own = format!("\"{}\" = LAYERS", crate::projgen::OWN_LAYERS);
+            if let Some(a) = text.find(&own) {
+                let b = a + text[a..].find("\n    ..\n").map_or(0, |x| x + 8);
+                let copies: String = ["copia", "copia 2"].iter().map(|c| text[a..b].replacen(&own, &format!("\"{} {}\" = LAYERS", crate::projgen::OWN_LAYERS, c), 1)).collect();
+                let mut t2 = format!("{}{}{}", &text[..b], copies, &text[b..]);
+                let mut done = 0;
+                for (edge, c) in [(0usize, "copia"), (2, "copia 2")] {
+                    let hdr = format!("\"{}\" = EXTERIOR-WALL", crate::projgen::wall_name(0, edge));
+                    if let Some(w) = t2.find(&hdr) {
+                        // the wall block and the CONSTRUCTION block that follows it
+                        let e1 = w + t2[w..].find("\n    ..\n").map_or(0, |x| x + 8);
+                        let e2 = e1 + t2[e1..].find("\n    ..\n").map_or(0, |x| x + 8);
+                        let region = t2[w..e2].replace("\"Fachada por defecto D0.60\"", &format!("\"{} {}0.60\"", crate::projgen::OWN_LAYERS, c)).replace("LAYERS = \"Fachada por defecto D\"", &format!("LAYERS = \"{} {}\"", crate::projgen::OWN_LAYERS, c));
+                        if region != t2[w..e2] {
+                            t2 = format!("{}{}{}", &t2[..w], region, &t2[e2..]);
+                            done += 1;
+                        }
+                    }
+                }
+                if done == 2 {
+                    ctx.eval(1);
+                    match corpus::convert_text(&t2, false) {
+                        corpus::Outcome::Ok(m) => {
+                            ctx.nontriv(1);
+                            let d = crate::refm::closure_defects(&m);
+                            if !d.is_empty() || !bemodel::check(&m).is_empty() {
+                                ctx.violation("closure:generated-project:three-definitions-with-one-content", &format!("wall layers defined three times under different names, each in use: the converted model is not closed: {:?}", d.iter().take(3).collect::<Vec<_>>()), json!({"spec": format!("{:?}", s)}));
+                            }
+                            // every wall still resolves to layers of that content
+                            for w in &m.walls {
+                                if let Some(c) = m.cons.wallcons.iter().find(|c| c.id == w.cons) {
+                                    let _ = c;
+                                } else {
+                                    ctx.violation("closure:generated-project:three-definitions-with-one-content", &format!("wall {} has no construction in the model", w.name), json!({"spec": format!("{:?}", s)}));
+                                    break;
+                                }
+                            }
+                        }
+                        corpus::Outcome::Err(_) => {}
+                        corpus::Outcome::Panic(p) => ctx.violation(&format!("panic:{}", panic_key(&p)), &p, json!({"spec": format!("{:?}", s), "variant": "three definitions with one content"})),
+                    }
+                }
+            }
+        }
         // the same project with one more space that owns no element of its own and is only named as the other side of
         // the slab between the storeys: closed, or rejected
         if s.storeys == 2 {
